@@ -34,7 +34,11 @@ type scanResult struct {
 
 // scanOnce runs ScanSnapshot on data delivered by a scripted reader.
 func scanOnce(data []byte, opts *stack.Opts, chunks []int, rest int) (res scanResult) {
-	src := &sched.Scripted{Data: data, Chunks: chunks, Rest: rest}
+	return scanOnceSrc(&sched.Scripted{Data: data, Chunks: chunks, Rest: rest}, opts)
+}
+
+// scanOnceSrc is scanOnce over a prepared scripted source.
+func scanOnceSrc(src *sched.Scripted, opts *stack.Opts) (res scanResult) {
 	var tr []sched.Event
 	ch := &sched.Chain{Src: src, Trace: &tr}
 	var w bytes.Buffer
